@@ -45,17 +45,20 @@ def _ob(name, hyps, goal):
 
 
 def lemmas(tier):
-	"""the derived clause that the argsort contract states for the solver's benefit follows from its basic clauses"""
+	"""the single rank clause of the contract implies the sub-clauses of the property"""
+	from pyvc.libspec.np import LEXRANK, lexrank_axioms
 	out = []
 	d = z3.Const('d', z3.ArraySort(I, R))
-	r = z3.Const('r', IntArr)
-	inv = z3.Function('rank', I, I)
-	n, p, q, j = z3.Ints('n p q j')
-	base = [n > 0,
-		z3.ForAll([j], z3.Implies(z3.And(0 <= j, j < n), z3.And(0 <= r[j], r[j] < n, inv(r[j]) == j))),
-		z3.ForAll([j], z3.Implies(z3.And(0 <= j, j < n), z3.And(0 <= inv(j), inv(j) < n, r[inv(j)] == j))),
-		z3.ForAll([p, q], z3.Implies(z3.And(0 <= p, p < q, q < n), d[r[p]] <= d[r[q]])),
-		z3.ForAll([p, q], z3.Implies(z3.And(0 <= p, p < q, q < n, d[r[p]] == d[r[q]]), r[p] < r[q]))]
-	out.append(_ob('argsort-stable/first-is-minimum', base + [0 <= j, j < n], d[r[0]] <= d[j]))
-	out.append(_ob('argsort-stable/first-is-first-minimum', base + [0 <= j, j < r[0]], d[r[0]] < d[j]))
+	n, i, k, r, s_, m = z3.Ints('n i k r s m')
+	ax = lexrank_axioms(d, n)
+	rk = lambda x: LEXRANK(d, n, x)
+	lt = lambda x, y: z3.Or(d[x] < d[y], z3.And(d[x] == d[y], x < y))
+	inr = lambda x: z3.And(0 <= x, x < n)
+	# order: entries at positions r < s hold references i, k with (d[i], i) < (d[k], k): non-decreasing distance, ties by reference order
+	out.append(_ob('rank/order', [ax, inr(i), inr(k), rk(i) == r, rk(k) == s_, r < s_], lt(i, k)))
+	out.append(_ob('rank/distances-non-decreasing', [ax, inr(i), inr(k), rk(i) == r, rk(k) == s_, r < s_], d[i] <= d[k]))
+	# determinism: a position determines the reference (two references cannot share a rank)
+	out.append(_ob('rank/unique', [ax, inr(i), inr(k), rk(i) == rk(k)], i == k))
+	# completeness: a reference that is not among the first m ranks comes after every listed one
+	out.append(_ob('rank/nothing-closer-left-out', [ax, inr(i), inr(k), rk(i) < m, rk(k) >= m], lt(i, k)))
 	return out
